@@ -31,7 +31,8 @@ func lookupNode[T any](urlTree *URLTree[T], url string) lookupNodeResult[T] {
 	var foundWildcardNode *Node[T]
 	urlPath := ""
 	for partIndex, urlPart := range splitURL {
-		if currentNode.WildcardChild != nil {
+		if currentNode.WildcardChild != nil &&
+			wildcardCovers(urlTree, currentNode, urlPart) {
 			foundWildcardNode = currentNode.WildcardChild
 		}
 		child, found := currentNode.ConstantChildren[urlPart.Value]
@@ -114,6 +115,16 @@ func lookupNode[T any](urlTree *URLTree[T], url string) lookupNodeResult[T] {
 
 	// No match found, return the node that was found with noMatch
 	return buildLookupNodeResult(false, currentNode, params, urlPath)
+}
+
+// wildcardCovers tells whether the wildcard child of parent covers a URL that continues with part:
+// a path wildcard ("a.com/*") covers path segments only, not a further host label ("a.com.evil/x");
+// the wildcard at the root ("*") covers every URL.
+func wildcardCovers[T any](urlTree *URLTree[T], parent *Node[T], part urlPart) bool {
+	if parent == urlTree.Root || parent.WildcardChild.IsPartOfHost {
+		return true
+	}
+	return !part.IsPartOfHost
 }
 
 func getDelimiter(urlPart urlPart) string {
